@@ -124,7 +124,7 @@ func doDecode(entry string, b []byte, rp *reply, viol func(site, what string)) {
 		ok   bool
 		used int64
 	}
-	// every decode runs twice and the smaller allocation is reported: the decoders are
+	// every decode runs three times and the smallest allocation is reported: the decoders are
 	// deterministic, one-off runtime allocations (a GC cycle starting its workers, a sync.Pool
 	// refill) are not
 	run := func(name string, mkr func() io.Reader) (res, uint64, bool) {
@@ -132,7 +132,7 @@ func doDecode(entry string, b []byte, rp *reply, viol func(site, what string)) {
 		var err error
 		var al uint64
 		p, msg := common.Safely(func() {
-			for k := 0; k < 2; k++ {
+			for k := 0; k < 3; k++ {
 				rf, r := mk(), mkr()
 				a := measure(func() { n, err = rf(r) })
 				if k == 0 || a < al {
@@ -178,8 +178,10 @@ func doDecode(entry string, b []byte, rp *reply, viol func(site, what string)) {
 		var al2 uint64
 		if p, msg := common.Safely(func() {
 			al2 = measure(func() { _, used, err = bt.NewTxFromStream(b) })
-			if a := measure(func() { _, used, err = bt.NewTxFromStream(b) }); a < al2 {
-				al2 = a
+			for k := 0; k < 2; k++ {
+				if a := measure(func() { _, used, err = bt.NewTxFromStream(b) }); a < al2 {
+					al2 = a
+				}
 			}
 		}); p {
 			viol("NewTxFromStream/panic", msg)
